@@ -12,7 +12,7 @@ RULE = ("(reader) bench texts rendered from a seeded abstract netlist with layou
         "blackbox-free circuits with >= 1 input; distinct = abstract netlist/circuit fingerprint + layout; "
         "non-trivial = at least one gate whose function depends on an input")
 PROBES = ["const0", "const1", "dff_fed_by_later_dff", "output_declared_first", "lower_case", "BUFF", "dup_operand_parity",
-          "dup_operand_andor", "one_operand_gate", "reader", "writer", "output_is_input", "dff"]
+          "dup_operand_andor", "one_operand_gate", "reader", "writer", "output_is_input", "dff", "unrepresentable_name"]
 ASSUMPTIONS = ["no whitespace between a gate keyword and '(' and no mixed-case keywords (not part of the dialect)",
                "<= 6 inputs, <= 14 gates, <= 3 DFFs"]
 
@@ -130,6 +130,11 @@ def gen(rng, tier):
         for j, n in enumerate(rng.sample(plain, min(len(plain), rng.randint(1, 3)))):
             mp[n] = rng.choice(("_a", "_", "a$", "b$x", "n[", "y'", "w:", "\\e")) + str(j) + rng.choice(("", "]", "$"))
         net = G.rename(net, mp)
+    elif rng.random() < 0.06:
+        # names the bench syntax has no way to write (this library's Verilog reader keeps escaped identifiers such
+        # as `\\sum(0) ` and `\\a,b ` verbatim): nothing but a refusal is right for them
+        n = rng.choice(sorted(net["nodes"]))
+        net = G.rename(net, {n: rng.choice(("\\s(0)", "a,b", "p=q", "k#1", "x y", "\\bus[0] ", "f(", "g)"))})
     return {"kind": "writer", "net": net, "peer": {"seed": rng.getrandbits(32)}}
 
 
@@ -246,8 +251,9 @@ def run(case, ctx):
     if not ref.is_lint_clean(net) or ref.is_cyclic(net) or net["bbs"] or not ref.inputs(net):
         raise Skip("precondition")
     import re
-    if any(not re.fullmatch(r"[^\s(),=#\d][^\s(),=#]*", n) for n in net["nodes"]):
-        raise Skip("names the bench syntax cannot carry (white space, parentheses, comma, '=', '#', leading digit)")
+    unrep = sorted(n for n in net["nodes"] if not re.fullmatch(r"[^\s(),=#\d][^\s(),=#]*", n))
+    if unrep and any(n[:1].isdigit() for n in unrep):
+        raise Skip("leading digit")
     has0 = any(v[0] == "0" for v in net["nodes"].values())
     has1 = any(v[0] == "1" for v in net["nodes"].values())
     if has0:
@@ -258,7 +264,29 @@ def run(case, ctx):
         ctx.probe("output_is_input")
     sig = {"kind": "writer", "const": has0 or has1}
     c = ref.build(cg, net)
-    text = ctx.call("C15.writer_raises", sig, cg.io.circuit_to_bench, c)
+    if unrep:
+        # white space, parentheses, comma, '=', '#': the format cannot carry the name.  The writer may refuse
+        # (ValueError); text that reads back as some other circuit is judged like any other round trip below
+        ctx.probe("unrepresentable_name")
+        sig["unrepresentable"] = True
+        try:
+            ctx.warm(cg.io.circuit_to_bench, c)
+            text = cg.io.circuit_to_bench(c)
+        except ValueError:
+            ctx.stats["steps"] += 1
+            return
+        except Exception as e:
+            ctx.violate("C15.writer_raises", f"circuit_to_bench raised {type(e).__name__}: {e}", sig)
+            return
+        try:
+            ctx.warm(cg.io.bench_to_circuit, text, c.name)
+            c2 = cg.io.bench_to_circuit(text, c.name)
+        except Exception as e:
+            ctx.violate("C15.rt_unreadable", f"circuit_to_bench wrote text for a circuit with the net {unrep[0]!r} that "
+                        f"bench_to_circuit cannot read back ({type(e).__name__}: {e}); text:\n{text}", sig)
+            return
+    else:
+        text = ctx.call("C15.writer_raises", sig, cg.io.circuit_to_bench, c)
     ctx.log("text", fp(text))
     ctx.observe_order([ln for ln in text.split("\n") if "=" in ln][:5])
     c2 = ctx.call("C15.roundtrip_reader_raises", sig, cg.io.bench_to_circuit, text, c.name)
